@@ -1418,13 +1418,13 @@ FACETS = [
           doc="scalar widths: windows inside the data, containing the estimate, separated from neighbours"),
     Facet("few_points", check_coherence,
           strategy=lambda tier: few_points_cases(tier).filter(_in_range(K_TINY, K_MAIN - 1, near_npar=0)),
-          quick=(1, 12), thorough=(16, 15), shrink=False, min_nontrivial=0.0,
+          quick=(4, 12), thorough=(16, 15), shrink=False, min_nontrivial=0.0,
           doc="windows of 4..11 points (not equal to a parameter count): too-narrow rule at the boundary"),
     Facet("edge_peak", check_coherence, strategy=lambda tier: edge_peak_cases(tier),
           quick=(1, 20), thorough=(16, 40), shrink=False, min_nontrivial=0.2,
           doc="peak 0.3..3.5 steps inside a window end: success only if at least 2 steps away"),
     Facet("remove_synthetic", check_removal, strategy=lambda tier: removal_cases(tier),
-          quick=(1, 200), thorough=(16, 1500), min_nontrivial=0.2,
+          quick=(3, 250), thorough=(16, 1500), min_nontrivial=0.2,
           doc="remove_peaks on hand-built FitResults: arbitrary windows, assessments, containers, variances refusal"),
     # ---- facets confined to one suspected root cause each (see MATCHERS)
     Facet("tiny_window", check_tiny_window,
@@ -1433,7 +1433,7 @@ FACETS = [
           doc="windows of 0..3 points must give 'window too narrow', not an exception"),
     Facet("zero_dof", check_zero_dof,
           strategy=lambda tier: few_points_cases(tier, zero_dof=True).filter(_zero_dof_region),
-          quick=(1, 12), thorough=(4, 60), shrink=False, min_nontrivial=0.2,
+          quick=(4, 12), thorough=(16, 60), shrink=False, min_nontrivial=0.2,
           doc="windows holding exactly as many points as the model has parameters"),
     Facet("guess_fraction", check_coherence, strategy=lambda tier: guess_fraction_cases(tier),
           quick=(1, 25), thorough=(4, 80), shrink=True, min_nontrivial=0.0,
